@@ -1,5 +1,5 @@
 import Drivers.Common
-import RioModel.Model.JsonText
+import RioModel.Model.JsonAction
 open Lean
 
 namespace C06
